@@ -119,6 +119,9 @@ theorem rk4Iter_inv {σ : Type} (P : R4Params α) (f : Rhs α n) (ob : Obs σ α
   · rw [if_pos hg]; exact hs
   · rw [if_neg hg]
     dsimp only
+    by_cases hstag : Num.eqb (s.x + (rk4Adjust P s).1) s.x = true
+    · rw [if_pos hstag]; exact hs
+    rw [if_neg hstag]
     have h1 := Meter.counted_bump hs.1 _ _ (rk4_stages_calls (fun j => f (s.m.ncalls + j)) s.y s.k1 s.x (rk4Adjust P s).1)
     have h2 := Meter.counted_bump h1 _ _ (rk4_update_calls
       (fun j => f ((s.m.bump (Gen.Rk4.stages (f := fun j => f (s.m.ncalls + j)) (y := s.y) (h := (rk4Adjust P s).1) (k1 := s.k1)
